@@ -92,4 +92,39 @@ def Bucket.run : Bucket → List Nat → Nat
   | _, [] => 0
   | b, dt :: rest => let r := b.request dt; (if r.2 then 1 else 0) + Bucket.run r.1 rest
 
+/-! ### one cached limiter: `NewRateLimiter`, `Update`, `Allow` for the three kinds of rule -/
+
+inductive Kind where
+  | nolimit                 -- `Limit == rate.Inf`
+  | blocked                 -- `Limit == 0` or `Burst < 1`
+  | bucket (limit burst : Nat)
+deriving Repr, DecidableEq
+
+/-- the two fields `Allow` looks at -/
+structure Lim where
+  nolimit : Bool
+  limiter : Option (Nat × Nat)     -- (limit, burst) of the token bucket, when there is one
+deriving Repr, DecidableEq
+
+def newLim : Kind → Lim
+  | .nolimit => { nolimit := true, limiter := none }
+  | .blocked => { nolimit := false, limiter := none }
+  | .bucket l b => { nolimit := false, limiter := some (l, b) }
+
+/-- `RateLimiter.Update`; `resetsFlag` says whether the blocking branch sets `nolimit = false` -/
+def updateLim (resetsFlag : Bool) (r : Lim) (k : Kind) : Lim :=
+  let changed := match r.limiter, k with
+    | some (l, b), .bucket l' b' => !(l = l' ∧ b = b')
+    | some _, _ => true
+    | none, _ => true
+  if changed then
+    match k with
+    | .nolimit => { nolimit := true, limiter := none }
+    | .blocked => { nolimit := if resetsFlag then false else r.nolimit, limiter := none }
+    | .bucket l b => { nolimit := false, limiter := some (l, b) }
+  else r
+
+/-- `RateLimiter.Allow` without a token bucket: the flag decides; with one, the bucket does -/
+def allowsWithoutBucket (r : Lim) : Option Bool := if r.limiter.isNone then some r.nolimit else none
+
 end Mitum.RateLimit
